@@ -216,6 +216,8 @@ func propC06(c *Ctx) {
 	c.Rule("R6.4", "latest() returns the scanned cursor row, or (start-1, Hash(start-1)), or (head-1, Hash(head-1)); never a constant position", 3)
 	propC06Latest(c, m.latest, fStart)
 
+	c.Rule("R6.7", "no partition of load reaches beyond the requested range (a batch clipped to stop must not be overshot): same arithmetic rules as C01 R1.5", 3)
+	propC01Partition(c, m, "R6.7")
 	c.Rule("R6.6", "the source client's cache serves only the segment fetched for exactly the requested (start, limit): a clipped batch cannot receive blocks beyond stop", 3)
 	checkCacheKeyIdentity(c, "R6.6")
 
